@@ -3,7 +3,7 @@
    replace a file's whole content; a run creates, reads back and removes only temp files whose names derive from
    its own chunk and partition counts. *)
 From Coq Require Import NArith List String.
-From KT Require Import Model.Show Proof.DegenerateProof.
+From KT Require Import Model.Show Model.Fs Model.CtrFs Proof.Merge Proof.DegenerateProof Proof.CtrFsProof.
 Import ListNotations.
 Notation length := List.length.
 Notation concat := List.concat.
@@ -23,6 +23,32 @@ Theorem C17_history_independent :
   fs_read p (fold_left (fun f c => run c f) (cs ++ [c]) f0) = fs_read p (run c []).
 Proof. exact history_independent. Qed.
 
+(* the counter with its concrete files (Model/CtrFs.v, run against the real directory content by the `ctrfs`
+   cases): for every partition count, every list of chunk passes and EVERY previous content f of the location,
+   the run does not fail on a missing file, kmers.counts receives the merged table of this run alone, this run's
+   temp files are gone, and every other path - e.g. temp files of an earlier run with more chunks or partitions -
+   is left exactly as it was, unread *)
+Theorem C17_counter_files_independent_of_previous_content :
+  forall n_parts dir bags f,
+  exists f', ctr_fs n_parts dir bags f = Some f' /\
+    fs_read (counts_name dir) f' = Some (file_text (merged n_parts bags)) /\
+    (forall q, own n_parts dir (N.of_nat (length bags)) q -> fs_read q f' = None) /\
+    (forall q, q <> counts_name dir -> ~ own n_parts dir (N.of_nat (length bags)) q -> fs_read q f' = fs_read q f).
+Proof. exact ctr_fs_correct. Qed.
+
+Theorem C17_counter_same_table_in_any_two_locations :
+  forall n_parts dir bags f g,
+  exists f' g', ctr_fs n_parts dir bags f = Some f' /\ ctr_fs n_parts dir bags g = Some g' /\
+    fs_read (counts_name dir) f' = fs_read (counts_name dir) g'.
+Proof. exact ctr_fs_history_independent. Qed.
+
+(* temp files of different (partition, chunk) never share a name, and none is the counts table *)
+Theorem C17_temp_names_distinct :
+  forall dir p c p' c', temp_name dir p c = temp_name dir p' c' -> p = p' /\ c = c'.
+Proof. exact temp_name_inj. Qed.
+Theorem C17_temp_name_is_not_the_counts_table : forall dir p c, temp_name dir p c <> counts_name dir.
+Proof. exact temp_not_counts. Qed.
+
 Example C17_example :
   let stale := [(Show.str "out/kmers.counts"%string, Show.str "old"%string); (Show.str "out/temp_kmers.part_9_chunk_3"%string, Show.str "7 7"%string)] in
   let c := {| results := [(Show.str "out/kmers.counts"%string, Show.str "new"%string)]; temps := [(Show.str "out/temp_kmers.part_0_chunk_0"%string, Show.str "1 1"%string)] |} in
@@ -33,3 +59,7 @@ Proof. vm_compute. split; reflexivity. Qed.
 Print Assumptions C17_write_replaces_content.
 Print Assumptions C17_results_independent_of_previous_content.
 Print Assumptions C17_history_independent.
+Print Assumptions C17_counter_files_independent_of_previous_content.
+Print Assumptions C17_counter_same_table_in_any_two_locations.
+Print Assumptions C17_temp_names_distinct.
+Print Assumptions C17_temp_name_is_not_the_counts_table.
